@@ -60,6 +60,10 @@ CLAIMED = {
          "Termination-insensitive non-interference of metrics code with kernel results: values derived from Metrics.* never reach yields/returns/tree writes/kernel control flow in any function of core/; every asserting Metrics call is dominated by a collecting guard; payload operators count exactly the table; beginCollect resets every attribute any Metrics method mutates; metrics.py is confined to Metrics.* and files; one incIter per yield in the ticking generators. Sufficient for 'results with collection on = off' for all kernels; equality of the reported numbers with an executed kernel is NOT decided.",
          "Trusts: Fiber._saved_* statistics do not influence results; asserts of the metrics API may abort a collecting run.",
          "DESIGN.md section 3, C15"),
+ "C16": ("symbolic list-length normal form (header vs row arity), flush-discipline clause checks on the CFG, index-domain recogniser (position / relative position / ordinal of a default-skipping stream / destination-side) at every Metrics.addUse call site",
+         "Structural clauses: header and every row have length 2*(depth+1)+1 with the depth taken from the same two-way choice; flush discipline (append mode, fresh buffer after each flush, identical row to file and memory buffers, flush at num_cached_uses, final flush before the traces are dropped) -- which makes the file content independent of the threshold by construction; the position argument of each of the 24 addUse call sites is classified, ordinals of default-skipping streams are reported (8 known findings on the pinned tree). Row order and stamp monotonicity are NOT decided.",
+         "Trusts: the iteration-kind recogniser (sa/sites.py).",
+         "DESIGN.md section 3, C16"),
 }
 
 NOT_APPLICABLE = {
